@@ -131,9 +131,21 @@ def dispatch_on(body, subject, consts=None, allow_prefix_stmts=True):
 def arms_all_leave(d):
     """True when every arm of a sequence-of-ifs dispatch ends in return/raise (so later statements are residual)."""
     for _, body, _ in d.arms:
-        if not body or not isinstance(body[-1], (ast.Return, ast.Raise)):
+        if not block_leaves(body):
             return False
     return True
+
+
+def block_leaves(body):
+    """Every path through the statement list ends in return/raise."""
+    if not body:
+        return False
+    last = body[-1]
+    if isinstance(last, (ast.Return, ast.Raise)):
+        return True
+    if isinstance(last, ast.If):
+        return bool(last.orelse) and block_leaves(last.body) and block_leaves(last.orelse)
+    return False
 
 
 def isinstance_chain(body, subject):
